@@ -11,6 +11,9 @@ Exception model (see DESIGN.md 2.2):
     (used by C07, whose statement excludes faults after clean-up has started).
   * `a and f()` / `a or f()` expression statements are expanded into a test node + a call node.
   * generators: every `yield` node additionally gets a KI edge (GeneratorExit on close()).
+  * edge labels: n/true/false/ret/brk/cont (normal), catch (dispatch -> handler), `e:KI`/`e:EX` = a fault
+    ORIGINATES at the source node, `p:KI`/`p:EX` = an exception already in flight PROPAGATES (out of a finally
+    copy / past a try without a matching handler).
 Unmodelled statement kinds (match, async, try*) raise AnalysisError - never guessed.
 """
 from __future__ import annotations
@@ -214,7 +217,9 @@ class CFG:
                 oe, ox = self._seq(s.orelse, ctx, copy)
                 self._edge(t, oe, "false")
                 return t, bx + ox
-            return t, bx + [t]
+            j = self._new("join", None, copy)
+            self._edge(t, j, "false")
+            return t, bx + [j]
         if isinstance(s, (ast.While, ast.For)):
             is_while = isinstance(s, ast.While)
             head = self._new("test" if is_while else "iter", s.test if is_while else s, copy)
@@ -250,8 +255,11 @@ class CFG:
             call_stmt._p = s
             c = self._new("stmt", call_stmt, copy)
             self._raising(c, ctx)
-            self._edge(t, c, "true" if isinstance(bo.op, ast.And) else "false")
-            return t, [t, c]
+            is_and = isinstance(bo.op, ast.And)
+            self._edge(t, c, "true" if is_and else "false")
+            j = self._new("join", None, copy)
+            self._edge(t, j, "false" if is_and else "true")
+            return t, [j, c]
         n = self._simple(s, ctx, copy)
         return n, [n]
 
@@ -265,7 +273,7 @@ class CFG:
             if key not in cache:
                 tag = f"{copy}/fin:{kind}" if copy else f"fin:{kind}"
                 e, xs = builder(ctx, tag)
-                lab = {"ret": "ret", "brk": "brk", "cont": "cont"}.get(kind, "e:" + kind[-2:])
+                lab = {"ret": "ret", "brk": "brk", "cont": "cont"}.get(kind, "p:" + kind[-2:])
                 for x in xs:
                     self._edge(x, target, lab)
                 cache[key] = e
@@ -320,7 +328,7 @@ class CFG:
                 handler_exits += hx
             for k in (KI, EX):
                 if k not in caught_must:
-                    self._edge(disp[k], inner.exc[k], "e:" + k)
+                    self._edge(disp[k], inner.exc[k], "p:" + k)
             body_ctx = inner.replace(exc=disp)
         else:
             body_ctx = inner
